@@ -190,6 +190,7 @@ harness! { fn c12_refill_foo_4() unwind(6) { refill::<w1::Foo, 4>() } }
 harness! { fn c12_refill_tri_3() unwind(5) { refill::<w3::Tri, 3>() } }
 harness! { fn c12_with_capacity_fill_3() unwind(10) { with_capacity_fill::<3>() } }
 harness! { fn c12_with_capacity_fill_1() unwind(6) { with_capacity_fill::<1>() } }
+harness! { fn c12_with_capacity_fill_2() unwind(8) { with_capacity_fill::<2>() } }
 harness! { fn c12_zero_capacity() unwind(4) { zero_capacity() } }
 harness! { fn c12_limit_within_capacity() unwind(3) { limit_within_capacity() } }
 harness! { fn c12_limit_create_panics() unwind(3) { limit_create_panics() } }
